@@ -11,6 +11,18 @@ def qdist (v g : Rat) : Rat := if v - g < 0 then -(v - g) else v - g
 def fl (xs : List Float) : String := joinSp (xs.map floatToHex)
 def ql (xs : List Rat) : String := joinSp (xs.map ratToStr)
 
+def fops : SearchSpace.Ops Float := ⟨Float.ofNat, fun x => (Float.ceil x).toUInt64.toNat, 0.0⟩
+def qops : SearchSpace.Ops Rat := ⟨fun n => (n : Rat), fun x => x.ceil.toNat, 0⟩
+
+def ssErr {α} (sh : α → String) : SearchSpace.SSErr α → String
+  | .boundsNotOfSizeTwo c => s!"err BoundsNotOfSizeTwoError {c}"
+  | .boundsOfDifferentLength a b => s!"err BoundsOfDifferentLengthError {a} {b}"
+  | .badPrecisionLength a b => s!"err BadPrecisionLengthError {a} {b}"
+  | .sameLowerAndUpper i v => s!"err SameLowerAndUpperBoundError {i} {sh v}"
+  | .lowerGreaterThanUpper i l u => s!"err LowerBoundGreaterThanUpperBoundError {i} {sh l} {sh u}"
+  | .precisionZero i => s!"err PrecisionZeroError {i}"
+  | .precisionGreaterThanRange i l u p => s!"err PrecisionGreaterThanBoundsRangeError {i} {sh l} {sh u} {sh p}"
+
 def handle (op : String) (args : List String) : Option String :=
   match op with
   | "snap.closest" => do
@@ -29,6 +41,21 @@ def handle (op : String) (args : List String) : Option String :=
         pure (gs, rows)) args
       if gs.any (·.isEmpty) then none else
       pure (joinSp ((Snap.digitize fdist gs rows 0.0).map fl))
+  | "ss.check" => do
+      let (b, p) ← run (do let b ← list (list flt); let p ← list flt; pure (b, p)) args
+      match SearchSpace.checkBounds (0.0 : Float) b p with
+      | .ok () => pure "ok"
+      | .error e => pure (ssErr floatToHex e)
+  | "ss.build" => do
+      let (tol, b, p) ← run (do let t ← flt; let b ← list (list flt); let p ← list flt; pure (t, b, p)) args
+      match SearchSpace.build fops tol b p with
+      | .ok (gs, size) => pure (s!"ok {gs.length} " ++ joinSp (gs.map (fun g => s!"{g.length} " ++ fl g)) ++ s!" {size}")
+      | .error e => pure (ssErr floatToHex e)
+  | "ss.buildq" => do
+      let (tol, b, p) ← run (do let t ← rat; let b ← list (list rat); let p ← list rat; pure (t, b, p)) args
+      match SearchSpace.build qops tol b p with
+      | .ok (gs, size) => pure (s!"ok {gs.length} " ++ joinSp (gs.map (fun g => s!"{g.length} " ++ ql g)) ++ s!" {size}")
+      | .error e => pure (ssErr ratToStr e)
   | _ => none
 
 def step (line : String) : String :=
